@@ -84,7 +84,7 @@ pub type Deps = OwnedDeps<MockStorage, MockApi, MockQuerier>;
 
 pub mod rec {
     use super::*;
-    pub use crate::reply::{build_with, ctx_reply, ctx_reply_legacy, reply_proj, inst_data, reply_handler, result_text, Recv};
+    pub use crate::reply::{build_with, ctx_reply, ctx_reply_legacy, reply_proj, inst_data, reply_handler, result_full, result_text, Recv};
     pub use crate::chain::chain_built;
     use sylvia::ctx::{ExecCtx, InstantiateCtx, MigrateCtx, QueryCtx, SudoCtx};
     use sylvia::cw_std::{QuerierWrapper, Storage};
@@ -225,6 +225,16 @@ pub mod rec {
             [QRespB::make(name, code), QRespB::make(name, code)]
         }
     }
+    impl QShape for sylvia::cw_std::Binary {
+        fn make(_name: &str, _code: u32) -> Self {
+            sylvia::cw_std::Binary::from(b"bin".to_vec())
+        }
+    }
+    impl QShape for String {
+        fn make(name: &str, _code: u32) -> Self {
+            name.to_string()
+        }
+    }
     pub fn qresp_t<T: QShape, E: From<HandlerErr>>(name: &str, code: u32, ok: bool) -> Result<T, E> {
         if ok {
             Ok(T::make(name, code))
@@ -243,7 +253,8 @@ pub mod rec {
     pub fn schemas(prog: &str, part: &str, table: Result<std::collections::BTreeMap<String, schemars::schema::RootSchema>, String>, anyof: i64) {
         let known = [("QResp", cosmwasm_schema::schema_for!(QResp)), ("QRespB", cosmwasm_schema::schema_for!(QRespB)),
                      ("Tup1", cosmwasm_schema::schema_for!((QResp,))), ("Tup2", cosmwasm_schema::schema_for!((QResp, u64))),
-                     ("VecTup1", cosmwasm_schema::schema_for!(Vec<(u64,)>)), ("ArrB", cosmwasm_schema::schema_for!([QRespB; 2]))];
+                     ("VecTup1", cosmwasm_schema::schema_for!(Vec<(u64,)>)), ("ArrB", cosmwasm_schema::schema_for!([QRespB; 2])),
+                     ("Bin", cosmwasm_schema::schema_for!(sylvia::cw_std::Binary)), ("Str", cosmwasm_schema::schema_for!(String))];
         match table {
             Ok(t) => {
                 let rows: Vec<Value> = t.iter().map(|(k, v)| {
